@@ -143,6 +143,47 @@ def version_guard(test):
     return None
 
 
+def fold_gate(deco, inner, wrapper, gate_strings, versions):
+    """True/False: for every supported version v and every threshold g used by a handler, the wrapper raises
+    OperationNotSupported exactly when v < g and otherwise calls the wrapped function; None when it cannot be folded."""
+    from ..fold import Folder, Version, Unfoldable, Raised, Opaque
+    if len(inner) != 1 or len(wrapper) != 1:
+        return None
+    sup = deco.args.args[0].arg
+    fpar = inner[0].args.args[0].arg
+    wself = wrapper[0].args.args[0].arg if wrapper[0].args.args else 'self'
+    try:
+        for g in gate_strings:
+            gv = tuple(int(x) for x in g.split('.'))
+            for v in versions:
+                f = Folder(models={'ProtocolVersion': Version, 'contents.ProtocolVersion': Version}, opaque_calls={fpar, 'functools.wraps', 'wraps'})
+                env = {sup: g}
+                f.run([s_ for s_ in deco.body if not isinstance(s_, (ast.FunctionDef, ast.Return))], env)
+                env[fpar] = {'__attrs__': ('__name__',), '__name__': '_process_operation_name'}
+                f.run([s_ for s_ in inner[0].body if not isinstance(s_, (ast.FunctionDef, ast.Return))], env)
+                env[wself] = {'__attrs__': ('_protocol_version', '_logger'), '_protocol_version': Version(*v), '_logger': Opaque('logger')}
+                for a_ in wrapper[0].args.args[1:]:
+                    env[a_.arg] = Opaque('argument')
+                if wrapper[0].args.vararg:
+                    env[wrapper[0].args.vararg.arg] = ()
+                if wrapper[0].args.kwarg:
+                    env[wrapper[0].args.kwarg.arg] = {}
+                try:
+                    out = f.run(wrapper[0].body, env)
+                    raised = None
+                except Raised as ex:
+                    raised, out = ex.name, None
+                below = tuple(v) < gv
+                if below and raised != 'exceptions.OperationNotSupported':
+                    return False
+                if not below:
+                    if raised is not None or out is None or out[0] != 'return' or not isinstance(out[1], Opaque) or out[1].what != fpar:
+                        return False
+    except Unfoldable:
+        return None
+    return True
+
+
 def holds(op, v, bound):
     return {'GtE': v >= bound, 'Gt': v > bound, 'Lt': v < bound, 'LtE': v <= bound, 'Eq': v == bound, 'NotEq': v != bound}[op]
 
@@ -514,6 +555,12 @@ def run(ctx):
                     conv_l = ls.replace('self._protocol_version', '@')
                     conv_r = rs.replace(sup, '@')
                     okd = okd and (conv_l == conv_r or (conv_l == 'float(str(@))' and conv_r == 'float(@)'))
+    # decide the gate by folding the decorator for every (supported version, gate threshold) pair; the spelling check above is
+    # the fallback when the decorator uses something the folder does not model
+    folded = fold_gate(deco, inner, wrapper, sorted(set(g for g in gates.values() if g)), versions)
+    if folded is not None:
+        okd = folded
+        ctx.note('C16.R3 gate-shape decided by folding the decorator over %d versions x %d thresholds' % (len(versions), len(set(gates.values()))))
     ctx.check(okd, 'C16.R3', 'KmipEngine._kmip_version_supported|gate-shape', dsite,
               'wrapper calls the handler only when protocol version >= supported, else raises OperationNotSupported',
               'the version gate does not compare the current version with its argument / does not raise OperationNotSupported below it')
@@ -528,56 +575,26 @@ def run(ctx):
     ctx.need(len(opsarg) == 1 and isinstance(opsarg[0], ast.Name), 'unrecognised construct: operations= argument of QueryResponsePayload')
     opsvar = opsarg[0].id
 
-    def members(e):
-        if isinstance(e, ast.Call) and call_name(e) == 'list':
-            return members(e.args[0]) if e.args else []
-        if isinstance(e, (ast.List, ast.Tuple)):
-            out = []
-            for x in e.elts:
-                mm = enum_member(x, 'Operation')
-                if not mm:
-                    raise AnalysisError('unrecognised construct: advertised operation %s' % U(x))
-                out.append(mm[1])
-            return out
-        raise AnalysisError('unrecognised construct: advertised operation list %s' % short(e))
-    contributions = []   # (guards [(op, bound)], [ops], line)
-    for n in qg.nodes:
-        if n.kind != 'stmt':
-            continue
-        s = n.stmt
-        ops = None
-        if isinstance(s, ast.Assign) and isinstance(s.targets[0], ast.Name) and s.targets[0].id == opsvar:
-            ops = members(s.value)
-        elif isinstance(s, ast.Expr) and isinstance(s.value, ast.Call) and isinstance(s.value.func, ast.Attribute) \
-                and isinstance(s.value.func.value, ast.Name) and s.value.func.value.id == opsvar:
-            if s.value.func.attr == 'extend':
-                ops = members(s.value.args[0])
-            elif s.value.func.attr == 'append':
-                ops = members(ast.List(elts=[s.value.args[0]]))
-            else:
-                raise AnalysisError('unrecognised construct: %s' % short(s))
-        elif isinstance(s, ast.AugAssign) and isinstance(s.target, ast.Name) and s.target.id == opsvar:
-            ops = members(s.value)
-        if ops is None:
-            continue
-        gs = []
-        for t, lab in dominating_edges(qg, n):
-            vg = version_guard(t.stmt)
-            if vg:
-                op, b = vg
-                gs.append((op, b, lab == 'T'))
-        contributions.append((gs, ops, s.lineno))
-    ctx.count('query_operation_contributions', len(contributions), 2)
+    # what Query advertises under each supported version: fold the statements the operations list depends on (pv/fold.py)
+    from ..fold import Folder, Version, Enum, Unfoldable, Raised, fold_slice
     qsite = m.site(q, q)
+    n_contrib = 0
     for v in versions:
-        adv = set()
-        for gs, ops, line in contributions:
-            if all(holds(op, v, b) == pol_ for op, b, pol_ in gs):
-                adv |= set(ops)
+        f = Folder(models={'ProtocolVersion': Version, 'contents.ProtocolVersion': Version})
+        env = {'self': {'__attrs__': ('_protocol_version',), '_protocol_version': Version(*v)}}
+        try:
+            adv_list = fold_slice(f, q, opsvar, env)
+        except (Unfoldable, Raised) as ex:
+            raise AnalysisError('unrecognised construct: the operations advertised by Query cannot be folded (%s)' % ex)
+        ctx.need(isinstance(adv_list, (list, tuple)) and all(isinstance(x, Enum) and x.cls == 'Operation' for x in adv_list),
+                 'unrecognised construct: advertised operation list %r' % (adv_list,))
+        adv = set(x.name for x in adv_list)
+        n_contrib = max(n_contrib, len(adv))
         bad = sorted(o for o in adv if o not in m.dispatch or vtuple(gates[o]) > v)
         ctx.check(not bad, 'C16.R4', 'KmipEngine._process_query|advertised@%d.%d' % v, qsite,
                   'under %d.%d Query advertises %d operations, all dispatched and gated <= %d.%d' % (v[0], v[1], len(adv), v[0], v[1]),
                   'under KMIP %d.%d Query advertises operations that are not available under that version: %s' % (v[0], v[1], bad))
+    ctx.count('query_operation_contributions', n_contrib, 2)
 
     # ---------------- R5 DiscoverVersions
     dv = m.method('_process_discover_versions')
@@ -587,36 +604,69 @@ def run(ctx):
     ctx.need(len(resp) == 1, 'unrecognised construct: DiscoverVersionsResponsePayload construction')
     rn, rc = resp[0]
     arg = [k.value for k in rc.keywords if k.arg == 'protocol_versions'] or rc.args[:1]
-    ctx.need(len(arg) == 1 and isinstance(arg[0], ast.Name), 'unrecognised construct: protocol_versions argument')
-    lv = arg[0].id
+    ctx.need(len(arg) == 1, 'unrecognised construct: protocol_versions argument')
     dsite2 = m.site(dv, dv)
-    okdv = True
-    why = ''
-    for var, val, dn in drd.reaching(rn, lv):
-        if isinstance(val, ast.AST) and is_self_attr(val, '_protocol_versions'):
-            continue
-        if isinstance(val, ast.Call) and call_name(val) == 'list' and not val.args or isinstance(val, ast.List) and not val.elts:
-            continue
-        okdv = False
-        why = 'list defined as %s' % (short(val) if isinstance(val, ast.AST) else val)
-    for n in dg.nodes:
-        for c in calls_at(n):
-            if isinstance(c.func, ast.Attribute) and isinstance(c.func.value, ast.Name) and c.func.value.id == lv and c.func.attr in ('append', 'extend', 'insert'):
-                a = c.args[-1]
-                tested = False
-                if c.func.attr == 'append' and isinstance(a, ast.Name):
-                    for t, lab in dominating_edges(dg, n):
-                        p = cmp_parts(t.stmt)
-                        if p and isinstance(p[0], ast.Name) and p[0].id == a.id and is_self_attr(p[2], '_protocol_versions') and \
-                                ((p[1] == 'In' and lab == 'T') or (p[1] == 'NotIn' and lab == 'F')):
-                            tested = True
-                    # appending to an alias of the engine's own list would corrupt it
-                    if any(isinstance(v, ast.AST) and is_self_attr(v, '_protocol_versions') for v in drd.values(n, lv)):
-                        tested = False
-                        why = 'appends to the engine list itself'
-                if not tested:
-                    okdv = False
-                    why = why or 'adds %s without membership test' % U(a)
+    why = []
+
+    def member_tested(name, at_node=None, ifs=()):
+        """the value of `name` is known to be in the supported list: a dominating `name in self._protocol_versions` edge, or such a condition of a comprehension"""
+        for c in ifs:
+            p = cmp_parts(c)
+            if p and isinstance(p[0], ast.Name) and p[0].id == name and is_self_attr(p[2], '_protocol_versions') and p[1] == 'In':
+                return True
+        if at_node is not None:
+            for t, lab in dominating_edges(dg, at_node):
+                p = cmp_parts(t.stmt)
+                if p and isinstance(p[0], ast.Name) and p[0].id == name and is_self_attr(p[2], '_protocol_versions') and \
+                        ((p[1] == 'In' and lab == 'T') or (p[1] == 'NotIn' and lab == 'F')):
+                    return True
+        return False
+
+    def only_supported(e, node, depth=0):
+        """every element of the list denoted by e at node is an element of self._protocol_versions"""
+        if depth > 6:
+            return False
+        if isinstance(e, ast.AST) and is_self_attr(e, '_protocol_versions'):
+            return True
+        if isinstance(e, ast.Call) and call_name(e) in ('list', 'tuple', 'sorted', 'reversed', 'copy.copy') and len(e.args) >= 1:
+            return only_supported(e.args[0], node, depth + 1) if e.args else True
+        if isinstance(e, ast.Call) and call_name(e) in ('list', 'tuple') and not e.args:
+            return True
+        if isinstance(e, (ast.List, ast.Tuple)) and not e.elts:
+            return True
+        if isinstance(e, ast.Subscript) and isinstance(e.slice, ast.Slice):
+            return only_supported(e.value, node, depth + 1)
+        if isinstance(e, (ast.ListComp, ast.GeneratorExp)) and len(e.generators) == 1 and isinstance(e.elt, ast.Name) \
+                and isinstance(e.generators[0].target, ast.Name) and e.elt.id == e.generators[0].target.id:
+            gen = e.generators[0]
+            return only_supported(gen.iter, node, depth + 1) or member_tested(e.elt.id, None, gen.ifs)
+        if isinstance(e, ast.Name):
+            ds = drd.reaching(node, e.id)
+            if not ds:
+                return False
+            for var, val, dn in ds:
+                if not isinstance(val, ast.AST) or dn is None or not only_supported(val, dn, depth + 1):
+                    why.append('list defined as %s' % (short(val) if isinstance(val, ast.AST) else val))
+                    return False
+            # elements added later
+            for n in dg.nodes:
+                for c in calls_at(n):
+                    if isinstance(c.func, ast.Attribute) and isinstance(c.func.value, ast.Name) and c.func.value.id == e.id and c.func.attr in ('append', 'extend', 'insert', '__iadd__'):
+                        a_ = c.args[-1]
+                        if any(isinstance(v, ast.AST) and is_self_attr(v, '_protocol_versions') for v in drd.values(n, e.id)):
+                            why.append('adds to the engine list itself')
+                            return False
+                        if c.func.attr in ('append', 'insert') and isinstance(a_, ast.Name) and member_tested(a_.id, n):
+                            continue
+                        if c.func.attr == 'extend' and only_supported(a_, n, depth + 1):
+                            continue
+                        why.append('adds %s without membership test' % U(a_))
+                        return False
+            return True
+        return False
+
+    okdv = only_supported(arg[0], rn)
+    why = '; '.join(why[:2]) or ('list defined as %s' % short(arg[0]))
     ctx.check(okdv, 'C16.R5', 'KmipEngine._process_discover_versions|provenance', dsite2,
               'response list is the supported list or request versions tested for membership', 'DiscoverVersions can list a version the server does not accept: %s' % why)
 
